@@ -344,7 +344,10 @@ class SupvisorsStateModes:
     def on_instance_state_event(self, identifier: str, event: Payload):
         """ The event is fired on change by the remote Supvisors instance. """
         # ignore if sent by the local Supvisors instance because information may be lost in the gap
-        if identifier != self.local_identifier:
+        # ignore if sent by a Supvisors instance seen as STOPPED: its information has been reset when it was invalidated
+        # and will be fully refreshed by the next handshake (otherwise it would be kept forever if it never comes back)
+        if (identifier != self.local_identifier
+                and self.local_state_modes.instance_states[identifier] != SupvisorsInstanceStates.STOPPED):
             self.instance_state_modes[identifier].update(event)
             # export the Supvisors status because starting / stopping identifiers may have changed
             self.export_status()
